@@ -118,7 +118,7 @@ def _expand_self(t, variant):
     return t
 
 
-def compare(variant: str, got: list, spec: list, unchanged_roles=(), refuse_ok: bool = False):
+def compare(variant: str, got: list, spec: list, unchanged_roles=(), refuse_ok: bool = False, defer_ok: bool = False):
     """-> None or a message.  Both are lists of (conds, outcome); compared on every valuation of the atoms."""
     import itertools
     atoms = []
@@ -155,6 +155,8 @@ def compare(variant: str, got: list, spec: list, unchanged_roles=(), refuse_ok: 
 
         if refuse_ok and g == 'raise':
             continue            # refusing where the table substitutes rejects more proofs: never unsound
+        if defer_ok and isinstance(g, tuple) and g and g[0] == 'C' and g[1] in ('ESubst', 'SSubst') and g[2] == ('self',):
+            continue            # keeping the substitution pending where the table drops it is another sound representation
         if nrm(g) != nrm(s):
             return f'at {_val(val)}: code yields {show(g)} but the textbook definition yields {show(s)}'
     return None
